@@ -141,8 +141,10 @@ class GlomError(Exception):
             # with required arguments, a metaclass that forbids it)
             # (the wrapped class may bring a __str__ of its own - KeyError, OSError, ... -
             # which would hide the one that renders the target-spec trace)
+            # (nor may its __setattr__ keep the wrapper from recording the trace)
             exc_wrapper_type = type(f"GlomError.wrap({exc_type.__name__})", bases,
-                                    {'__str__': GlomError.__str__})
+                                    {'__str__': GlomError.__str__,
+                                     '__setattr__': BaseException.__setattr__})
             wrapper = exc_wrapper_type(*exc.args)
             if wrapper.args != exc.args:  # re-creation changed the args
                 return exc
